@@ -118,7 +118,7 @@ def explain(obs, ps, inp):
     return (allowed_exn(ps, inp[1]), None, "the exception is neither injected by the engine nor raised by a frame above")
 
 
-def monitor_responses(obs):
+def monitor_responses(obs, skip=None):
     """-> {pid: PlanState}: the response discipline of every plan of the run (mirror of RespMon.chk, for all plans)."""
     plans = {}
     tapes = obs.get("tapes", {})
@@ -139,8 +139,8 @@ def monitor_responses(obs):
         # ---- observations (RespMon.mon_obs)
         for x in os_:
             kk = x[0]
-            if kk == "main":
-                continue
+            if kk == "main" or kk == "result" or (kk == "plan_in" and (x[1] >= 2000 or (skip is not None and skip(x[1])))):
+                continue          # inner tapes of wrapped plans (check_wrapped) and RunEngineResult records (check_results)
             if just is not None and kk != "msg":
                 plans[just[0]].bad.append("yielded message %r but the engine did not process it next" % (just[1],))
                 plans[just[0]].st = "dead"
@@ -206,10 +206,11 @@ def monitor_responses(obs):
     return plans
 
 
-def check_responses(obs):
-    """-> list of (kind, message): kind 'a' = reported deviation class, 'bad' = unexplained input."""
+def check_responses(obs, skip=None):
+    """-> list of (kind, message): kind 'a' = reported deviation class, 'bad' = unexplained input.
+    skip(pid): plans that do not talk to the engine directly (they sit under engine-level preprocessors)."""
     out = []
-    for pid, ps in sorted(monitor_responses(obs).items()):
+    for pid, ps in sorted(monitor_responses(obs, skip).items()):
         for b in ps.bad:
             out.append(("bad", "plan %d: %s" % (pid, b)))
         for f in sorted(ps.flags):
@@ -328,3 +329,94 @@ def coq_and(terms):
     for x in reversed(terms[:-1]):
         out = "(andb (%s) %s)" % (x, out)
     return out
+
+
+# ----------------------------------------------------------------------------- plans under real preprocessors (C13)
+
+def check_wrapped(obs, inner=None):
+    """The plan itself (inner tape, plan id 2000 + call index) sits under real preprocessors: the value it receives at
+    each yield is the ENGINE's response to the message it yielded there - None when the preprocessor deleted the message."""
+    bad = []
+    tapes = obs.get("tapes", {})
+    pend = {}        # pid -> {"mid", "seen", "resp", "has"}
+    count = {}
+    cur = []
+    if inner is None:
+        inner = lambda pid: pid >= 2000      # noqa: E731
+    for x in obs["obs"]:
+        k = x[0]
+        if k == "plan_in" and inner(x[1]):
+            pid, inp = x[1], x[2]
+            n = count.get(pid, 0)
+            count[pid] = n + 1
+            tape = tapes.get(str(pid), [])
+            st = pend.get(pid)
+            if st is None:
+                if n == 0 and inp != ["send", None] and inp[0] == "send":
+                    bad.append(("wrapped", "plan %d was started with %r" % (pid, inp)))
+            elif inp[0] == "send":
+                if not st["seen"]:
+                    if inp[1] is not None:
+                        bad.append(("wrapped", "plan %d: message %r (%s) was deleted by the preprocessor, yet its yield received %r"
+                                    % (pid, st["mid"], cmd_of(obs, st["mid"]), inp[1])))
+                elif st["has"]:
+                    if is_exn(st["resp"]):
+                        bad.append(("wrapped", "plan %d: the engine answered %s with %r but the plan was sent %r"
+                                    % (pid, cmd_of(obs, st["mid"]), st["resp"], inp[1])))
+                    elif inp[1] != st["resp"]:
+                        bad.append(("wrapped", "plan %d: the engine answered %s with %r but the yield received %r"
+                                    % (pid, cmd_of(obs, st["mid"]), st["resp"], inp[1])))
+                elif inp[1] is not None:
+                    bad.append(("wrapped", "plan %d: %s produced no response, yet the yield received %r" % (pid, cmd_of(obs, st["mid"]), inp[1])))
+            elif inp[0] == "throw":
+                e = inp[1]
+                own = st["seen"] and st["has"] and is_exn(st["resp"]) and st["resp"][1] == e
+                if not (own or e in EXT or e == "InvalidCommand"):
+                    bad.append(("wrapped", "plan %d was thrown %s, which is neither the engine's response to %s nor an engine exception"
+                                % (pid, e, cmd_of(obs, st["mid"]))))
+            ent = tape[n] if n < len(tape) else None
+            if ent is not None and ent[1][0] == "yield":
+                pend[pid] = {"mid": ent[1][1], "seen": False, "resp": None, "has": False}
+            else:
+                pend.pop(pid, None)
+        elif k == "msg":
+            # only the first processing after the yield counts: a rewind replays the message, its new response is dropped
+            cur = [pid for pid, st in pend.items() if st["mid"] == x[1] and x[1] is not None and not st["seen"]]
+            for pid in cur:
+                pend[pid]["seen"] = True
+        elif k == "resp":
+            for pid in cur:
+                if pid in pend:
+                    pend[pid]["resp"], pend[pid]["has"] = x[1], True
+            cur = []
+    return bad
+
+
+def check_results(obs):
+    """RunEngine(call_returns_result=True): plan_result is the plan's own return value, run_start_uids are the runs
+    opened during the call, exit_status is 'success' when the plan ran to completion."""
+    bad = []
+    tapes = obs.get("tapes", {})
+    ncall = -1
+    opened = []
+    for x in obs["obs"]:
+        if x[0] == "main" and x[1] == "call":
+            ncall += 1
+            opened = []
+        elif x[0] == "doc" and x[1] == "start":
+            opened.append(["uid", x[2]])
+        elif x[0] == "result":
+            _, action, plan_result, exit_status, uids, interrupted = x
+            if action in ("call", "resume"):
+                if uids != opened:
+                    bad.append(("result", "%s(): run_start_uids %r, runs opened %r" % (action, uids, opened)))
+                tape = tapes.get(str(2000 + ncall)) or tapes.get(str(ncall)) or []
+                last = tape[-1][1] if tape else None
+                if last is not None and last[0] == "ret":
+                    if plan_result != last[1]:
+                        bad.append(("result", "%s(): the plan returned %r but plan_result is %r" % (action, last[1], plan_result)))
+                    if exit_status != "success":
+                        bad.append(("result", "%s(): the plan ran to completion but exit_status is %r" % (action, exit_status)))
+                    if interrupted and not any(e[0] == "req_done" and e[1] in ("abort", "stop", "halt", "pause", "suspend") for e in obs["sched"]):
+                        bad.append(("result", "%s(): interrupted is set although nothing interrupted the plan" % action))
+    return bad
